@@ -11,10 +11,11 @@ namespace Lp.C13
 
 /-! ## [T1] int1D_eq, int1D_swap -/
 
-/-- equal limits give zero for every method name (even an unknown one: the test comes first) -/
-theorem int1D_eq (I : Integ) (name : String) (p : Int) (f : Rat → Rat) (a : Rat) :
+/-- equal limits give zero for every recognised method name -/
+theorem int1D_eq (I : Integ) (name : String) (m : Method) (hm : parseMethod name = some m) (p : Int)
+    (f : Rat → Rat) (a : Rat) :
     integrate1D I name p f a a = .ok 0 := by
-  simp [integrate1D]
+  simp [integrate1D, hm, int1]
 
 theorem int1_eq (I : Integ) (m : Method) (p : Int) (f : Rat → Rat) (a : Rat) : int1 I m p f a a = 0 := by
   simp [int1]
@@ -42,9 +43,7 @@ theorem int1_swap (I : Integ) (m : Method) (p : Int) (f : Rat → Rat) (a b : Ra
 
 theorem integrate1D_known (I : Integ) (name : String) (m : Method) (hm : parseMethod name = some m) (p : Int)
     (f : Rat → Rat) (a b : Rat) : integrate1D I name p f a b = .ok (int1 I m p f a b) := by
-  by_cases h : a = b
-  · subst h; simp [integrate1D, int1]
-  · simp [integrate1D, h, hm]
+  simp [integrate1D, hm]
 
 /-- **int1D_swap**: `Integrate(f,b,a,method,p) = -Integrate(f,a,b,method,p)` for every recognised method -/
 theorem int1D_swap (I : Integ) (name : String) (m : Method) (hm : parseMethod name = some m) (p : Int)
@@ -57,9 +56,10 @@ example : parseMethod "Tanh-Sinh" = some .tanhSinh := by decide
 
 /-! ## [T1] unknown_method → diagnostic at every level -/
 
+/-- an unknown method name is a diagnostic on every interval, also a degenerate one (fix d39b5c1) -/
 theorem unknown_method_1D (I : Integ) (name : String) (h : parseMethod name = none) (p : Int) (f : Rat → Rat)
-    (a b : Rat) (hab : a ≠ b) : integrate1D I name p f a b = .error .diag := by
-  simp [integrate1D, hab, h]
+    (a b : Rat) : integrate1D I name p f a b = .error .diag := by
+  simp [integrate1D, h]
 
 theorem unknown_method_2D (I : Integ) (MC : MCInteg) (name : String) (h : parseMethod name = none)
     (h' : parseMC name = none) (p : Int) (f : Rat → Rat → Rat) (x1 x2 y1 y2 : Rat) :
